@@ -178,7 +178,7 @@ def c03_streams(seed, tier):
 
 def c04_streams(seed, tier):
     prof = Profile(actions=NONCONSUMING, n_inputs=(0, 5), n_imods=(0, 3), n_amods=(0, 3), n_iconds=(0, 1), n_aconds=(0, 1),
-                   cond_kinds=SCRIPTED, mod_kinds=["sconv", "sadd", "sadd"], log_raw_p=0.5,
+                   cond_kinds=SCRIPTED, mod_kinds=["sconv", "sadd", "sadd"], log_raw_p=1.0,
                    n_ctx=(1, 2), lifecycle_p=0.02, toggle_p=0.45)
     return gen.app_batch(seed, 500 if tier == "quick" else 25000, prof, "c04r")
 
